@@ -1,11 +1,316 @@
 import DryocVerif.Model.Curve
-import DryocVerif.Model.Sign
-namespace DryocVerif.Properties.C05
-open DryocVerif
+import DryocVerif.Model.CurveInst
+import DryocVerif.Spec.X25519
+import DryocVerif.Spec.Ed25519
+import DryocVerif.Proofs.Curve
+/-
+C05 — Curve25519 scalar multiplication and the key exchange built on it.
 
-/-- key derivation rejects exactly the lengths outside 16..=64 -/
-theorem kdf_err_iff (P : Model.Curve.Prims) (len id : Nat) (ctx key : Bytes) :
-    Model.Curve.kdfDerive P len id ctx key = .err ↔ len < 16 ∨ 64 < len := by
-  unfold Model.Curve.kdfDerive; split <;> simp_all
+What is proved about dryoc's own code (`Model.Curve`, mirroring
+/repo/src/scalarmult_curve25519.rs and /repo/src/classic/crypto_kx.rs):
+
+* `clamp` is RFC 7748's `decodeScalar25519` byte manipulation, is idempotent, keeps the
+  length and produces a scalar in `[2^254, 2^255)` that is a multiple of 8;
+* `crypto_scalarmult_curve25519` drives the ladder with the clamped scalar *itself*:
+  instantiated with the RFC ladder it **is** RFC 7748's X25519 (`scalarmult_eq_x25519`);
+* the repaired defect E1 (scalar reduced modulo the group order `L` before the ladder):
+  the reduction changes *every* clamped scalar (`clamped_scalar_ge_L`) and the result
+  differs from X25519 outside the prime-order subgroup (concrete witnesses);
+* `crypto_kx_*_session_keys` refuse exactly the all-zero shared secret, never panic, and
+  the two sides derive mirrored keys whenever the two Diffie–Hellman results agree.
+-/
+namespace DryocVerif.Properties.C05
+open DryocVerif DryocVerif.Model.Curve
+
+/-- order of the prime-order subgroup, 2^252 + 27742317777372353535851937790883648493 -/
+abbrev L : Nat := Spec.Ed25519.L
+
+theorem L_eq : L = 2 ^ 252 + 27742317777372353535851937790883648493 := by decide
+
+/-! ### 1, 2: the clamp -/
+
+/-- dryoc's `clamp` is the RFC 7748 clamp on scalars of (at most) 32 bytes -/
+theorem clamp_eq_spec_of_le (n : Bytes) (h : n.length ≤ 32) :
+    Model.Curve.clamp n = Spec.X25519.clamp n :=
+  Proofs.Curve.clamp_eq_spec_of_le n h
+
+theorem clamp_eq_spec : ∀ n : Bytes, n.length = 32 → Model.Curve.clamp n = Spec.X25519.clamp n :=
+  fun n h => Proofs.Curve.clamp_eq_spec_of_le n (by omega)
+
+/-- on longer inputs (not expressible in Rust, the argument is `&[u8; 32]`) the two
+definitions differ: the spec truncates to 32 bytes, the model keeps the length -/
+theorem clamp_ne_spec_of_33 :
+    Model.Curve.clamp (zeros 33) ≠ Spec.X25519.clamp (zeros 33) :=
+  Proofs.Curve.clamp_ne_spec_33
+
+theorem clamp_idem (n : Bytes) : clamp (clamp n) = clamp n := Proofs.Curve.clamp_idem n
+
+theorem clamp_length (n : Bytes) : (clamp n).length = n.length := Proofs.Curve.clamp_length n
+
+/-- bit 254 set, bit 255 clear, low three bits clear -/
+theorem clamp_range (n : Bytes) (h : n.length = 32) :
+    2 ^ 254 ≤ le (clamp n) ∧ le (clamp n) < 2 ^ 255 ∧ 8 ∣ le (clamp n) :=
+  Proofs.Curve.clamp_range n h
+
+/-- the first and the last byte after clamping -/
+theorem clamp_bytes (b0 : UInt8) (mid : Bytes) (b31 : UInt8) (h : mid.length = 30) :
+    clamp (b0 :: (mid ++ [b31])) = (b0 &&& 248) :: (mid ++ [(b31 &&& 127) ||| 64]) := by
+  rw [Proofs.Curve.clamp_cons]
+  have h1 : (mid ++ [b31]).take 30 = mid := by
+    rw [List.take_append_of_le_length (by omega), List.take_of_length_le (by omega)]
+  have h2 : (mid ++ [b31]).drop 30 = [b31] := by
+    rw [List.drop_append_of_le_length (by omega), List.drop_of_length_le (by omega)]; rfl
+  rw [h1, h2]; rfl
+
+/-! ### 3: the scalar fed to the ladder -/
+
+theorem scalarmult_unfold (P : Prims) (n p : Bytes) : scalarmult P n p = P.ladder (clamp n) p := rfl
+
+/-- RFC 7748 `decodeScalar25519` is the little-endian value of dryoc's clamped scalar -/
+theorem decodeScalar_eq (n : Bytes) (h : n.length = 32) :
+    Spec.X25519.decodeScalar25519 n = le (clamp n) := by
+  rw [Spec.X25519.decodeScalar25519, clamp_eq_spec n h]
+
+/-- dryoc's `crypto_scalarmult_curve25519` (ladder driven by the clamped scalar itself, no
+reduction modulo the group order) is RFC 7748's X25519 -/
+theorem scalarmult_eq_x25519 (n p : Bytes) (h : n.length = 32) :
+    scalarmult specPrims n p = Spec.X25519.x25519 n p := by
+  simp only [scalarmult, specPrims, rawLadder, Spec.X25519.x25519, decodeScalar_eq n h]
+
+theorem scalarmultBase_eq (n : Bytes) (h : n.length = 32) :
+    scalarmultBase specPrims n = Spec.X25519.x25519Base n := by
+  simp only [scalarmultBase, specPrims, rawLadder, Spec.X25519.x25519Base, Spec.X25519.x25519,
+    decodeScalar_eq n h]
+
+/-- the same for scalars shorter than 32 bytes (used by the seed key pairs of C13, where
+the scalar is a `take 32`) -/
+theorem scalarmult_eq_x25519_of_le (n p : Bytes) (h : n.length ≤ 32) :
+    scalarmult specPrims n p = Spec.X25519.x25519 n p := by
+  simp only [scalarmult, specPrims, rawLadder, Spec.X25519.x25519,
+    Spec.X25519.decodeScalar25519, clamp_eq_spec_of_le n h]
+
+theorem scalarmultBase_eq_of_le (n : Bytes) (h : n.length ≤ 32) :
+    scalarmultBase specPrims n = Spec.X25519.x25519Base n :=
+  scalarmult_eq_x25519_of_le n Spec.X25519.basePoint h
+
+theorem scalarmultBase_eq_scalarmult (P : Prims) (n : Bytes) :
+    scalarmultBase P n = scalarmult P n P.base := rfl
+
+/-- clamping twice is harmless: a scalar that is already clamped goes to the ladder as is -/
+theorem scalarmult_clamped (P : Prims) (n p : Bytes) :
+    scalarmult P (clamp n) p = scalarmult P n p := by
+  simp only [scalarmult, clamp_idem]
+
+/-! ### 4: counter-model for the repaired defect E1 -/
+
+/-- the pre-fix code: `Scalar::from_bytes_mod_order(clamp(n))`, i.e. the clamped scalar
+reduced modulo the group order, then multiplied -/
+def scalarmultReduced (P : Prims) (n p : Bytes) : Bytes :=
+  P.ladder (toLE 32 (le (clamp n) % L)) p
+
+/-- every clamped scalar is at least `2^254 > L` -/
+theorem clamped_scalar_ge_L (n : Bytes) (h : n.length = 32) : L < le (clamp n) := by
+  have := (clamp_range n h).1
+  have hL : L < 2 ^ 254 := by decide
+  omega
+
+/-- … so the reduction modulo `L` changes the scalar, for every input -/
+theorem reduced_scalar_ne (n : Bytes) (h : n.length = 32) : le (clamp n) % L ≠ le (clamp n) := by
+  have h1 := clamped_scalar_ge_L n h
+  have h2 : le (clamp n) % L < L := Nat.mod_lt _ (by decide)
+  omega
+
+/-- … and the byte string handed to the ladder is a different one, for every input -/
+theorem reduced_scalar_bytes_ne (n : Bytes) (h : n.length = 32) :
+    toLE 32 (le (clamp n) % L) ≠ clamp n := by
+  intro he
+  have := congrArg le he
+  rw [Proofs.Curve.le_toLE] at this
+  have h1 := clamped_scalar_ge_L n h
+  have h2 : le (clamp n) % L < L := Nat.mod_lt _ (by decide)
+  have h3 := Nat.mod_le (le (clamp n) % L) (256 ^ 32)
+  omega
+
+/-- the reduction does not even preserve divisibility by the cofactor: for the all-zero
+secret key the reduced scalar is odd -/
+theorem reduced_scalar_odd : (le (clamp (zeros 32)) % L) % 2 = 1 := by decide
+
+/-- Witness 1: u = 1 has order 4.  X25519 multiplies by a multiple of 8 and yields the
+all-zero output (which `crypto_kx` then refuses); the reduced-scalar variant returns the
+low-order point itself. -/
+theorem reduced_ne_x25519_low_order :
+    Spec.X25519.x25519 (zeros 32) (1 :: zeros 31) = zeros 32 ∧
+    scalarmultReduced specPrims (zeros 32) (1 :: zeros 31) = 1 :: zeros 31 := by
+  set_option maxRecDepth 100000 in decide
+
+/-- Witness 2: u = 2 (a point with a non-trivial small-order component): both results are
+non-zero and they differ. -/
+theorem reduced_ne_x25519_mixed :
+    scalarmultReduced specPrims (zeros 32) (2 :: zeros 31) ≠
+      Spec.X25519.x25519 (zeros 32) (2 :: zeros 31) := by
+  set_option maxRecDepth 100000 in decide
+
+/-- hence the reduced-scalar function is not X25519, whereas the model is (`scalarmult_eq_x25519`) -/
+theorem scalarmultReduced_ne_x25519 :
+    ∃ n p : Bytes, n.length = 32 ∧ p.length = 32 ∧
+      scalarmultReduced specPrims n p ≠ Spec.X25519.x25519 n p ∧
+      scalarmult specPrims n p = Spec.X25519.x25519 n p :=
+  ⟨zeros 32, 2 :: zeros 31, by decide, by decide, reduced_ne_x25519_mixed,
+    scalarmult_eq_x25519 _ _ (by decide)⟩
+
+/-- on the base point (prime-order subgroup) the two agree for this key, as they must -/
+example : scalarmultReduced specPrims (zeros 32) Spec.X25519.basePoint =
+    Spec.X25519.x25519Base (zeros 32) := by
+  set_option maxRecDepth 100000 in decide
+
+/-! ### 5: the all-zero refusal of `crypto_kx` -/
+
+theorem kxClient_err_iff (P : Prims) (cpk csk spk : Bytes) :
+    kxClient P cpk csk spk = .err ↔ scalarmult P csk spk = zeros 32 := by
+  by_cases h : scalarmult P csk spk = zeros 32 <;> simp [kxClient, h]
+
+theorem kxServer_err_iff (P : Prims) (spk ssk cpk : Bytes) :
+    kxServer P spk ssk cpk = .err ↔ scalarmult P ssk cpk = zeros 32 := by
+  by_cases h : scalarmult P ssk cpk = zeros 32 <;> simp [kxServer, h]
+
+theorem kx_refuses_zero (P : Prims) (cpk csk spk : Bytes)
+    (h : scalarmult P csk spk = zeros 32) : kxClient P cpk csk spk = .err :=
+  (kxClient_err_iff P cpk csk spk).2 h
+
+theorem kx_refuses_zero_server (P : Prims) (spk ssk cpk : Bytes)
+    (h : scalarmult P ssk cpk = zeros 32) : kxServer P spk ssk cpk = .err :=
+  (kxServer_err_iff P spk ssk cpk).2 h
+
+/-- otherwise the client gets (rx, tx) = the two halves of BLAKE2b-512(q ‖ cpk ‖ spk) -/
+theorem kxClient_ok (P : Prims) (cpk csk spk : Bytes) (h : scalarmult P csk spk ≠ zeros 32) :
+    kxClient P cpk csk spk = .ok (kx P cpk spk (scalarmult P csk spk)) := by
+  simp [kxClient, h]
+
+/-- … and the server the same two halves, swapped -/
+theorem kxServer_ok (P : Prims) (spk ssk cpk : Bytes) (h : scalarmult P ssk cpk ≠ zeros 32) :
+    kxServer P spk ssk cpk =
+      .ok ((kx P cpk spk (scalarmult P ssk cpk)).2, (kx P cpk spk (scalarmult P ssk cpk)).1) := by
+  simp [kxServer, h]
+
+theorem kx_never_panics (P : Prims) (a b c : Bytes) :
+    kxClient P a b c ≠ .panic ∧ kxServer P a b c ≠ .panic := by
+  constructor
+  · by_cases h : scalarmult P b c = zeros 32 <;> simp [kxClient, h]
+  · by_cases h : scalarmult P b c = zeros 32 <;> simp [kxServer, h]
+
+/-- with the spec instantiation: a low-order peer key (u = 1, order 4) is refused by both sides -/
+theorem kx_refuses_low_order (pk : Bytes) :
+    kxClient specPrims pk (zeros 32) (1 :: zeros 31) = .err ∧
+    kxServer specPrims pk (zeros 32) (1 :: zeros 31) = .err := by
+  have h : scalarmult specPrims (zeros 32) (1 :: zeros 31) = zeros 32 := by
+    rw [scalarmult_eq_x25519 _ _ (by decide)]; exact reduced_ne_x25519_low_order.1
+  exact ⟨kx_refuses_zero _ _ _ _ h, kx_refuses_zero_server _ _ _ _ h⟩
+
+/-! ### 6: the two sides derive mirrored keys -/
+
+/-- If the two Diffie–Hellman computations agree (commutativity of scalar multiplication —
+a property of the group, taken as a hypothesis) and the result is not all-zero, then the
+client's rx is the server's tx and the client's tx is the server's rx. -/
+theorem kx_mirror (P : Prims) (cpk csk spk ssk : Bytes)
+    (hdh : scalarmult P csk spk = scalarmult P ssk cpk)
+    (hnz : scalarmult P csk spk ≠ zeros 32) :
+    ∃ rx tx, kxClient P cpk csk spk = .ok (rx, tx) ∧ kxServer P spk ssk cpk = .ok (tx, rx) := by
+  refine ⟨(kx P cpk spk (scalarmult P csk spk)).1, (kx P cpk spk (scalarmult P csk spk)).2, ?_, ?_⟩
+  · rw [kxClient_ok P cpk csk spk hnz]
+  · rw [kxServer_ok P spk ssk cpk (hdh ▸ hnz), ← hdh]
+
+/-- the same, in terms of the results -/
+theorem kx_mirror' (P : Prims) (cpk csk spk ssk : Bytes)
+    (hdh : scalarmult P csk spk = scalarmult P ssk cpk) (c s : Bytes × Bytes)
+    (hc : kxClient P cpk csk spk = .ok c) (hs : kxServer P spk ssk cpk = .ok s) :
+    c.1 = s.2 ∧ c.2 = s.1 := by
+  have hnz : scalarmult P csk spk ≠ zeros 32 := by
+    intro h; rw [kx_refuses_zero P cpk csk spk h] at hc; cases hc
+  rw [kxClient_ok P cpk csk spk hnz] at hc
+  rw [kxServer_ok P spk ssk cpk (hdh ▸ hnz), ← hdh] at hs
+  cases hc; cases hs; exact ⟨rfl, rfl⟩
+
+/-- both sides fail together -/
+theorem kx_err_together (P : Prims) (cpk csk spk ssk : Bytes)
+    (hdh : scalarmult P csk spk = scalarmult P ssk cpk) :
+    kxClient P cpk csk spk = .err ↔ kxServer P spk ssk cpk = .err := by
+  rw [kxClient_err_iff, kxServer_err_iff, hdh]
+
+/-- the session keys are the two halves of one 64-byte BLAKE2b output over q ‖ cpk ‖ spk -/
+theorem kx_spec (cpk spk q : Bytes) :
+    kx specPrims cpk spk q =
+      ((Spec.Blake2b.hash 64 [] (q ++ cpk ++ spk)).take 32,
+       (Spec.Blake2b.hash 64 [] (q ++ cpk ++ spk)).drop 32) := rfl
+
+/-! ### 7: `crypto_box_beforenm` -/
+
+theorem beforenm_unfold (P : Prims) (pk sk : Bytes) :
+    beforenm P pk sk = P.hsalsa (P.ladder (clamp sk) pk) (zeros 16) := rfl
+
+/-- NaCl's `crypto_box_beforenm`: HSalsa20 of the X25519 shared secret under a zero nonce -/
+theorem beforenm_eq_spec (pk sk : Bytes) (h : sk.length = 32) :
+    beforenm specPrims pk sk = Spec.Salsa20.hsalsa20 (Spec.X25519.x25519 sk pk) (zeros 16) := by
+  rw [beforenm, scalarmult_eq_x25519 sk pk h]; rfl
+
+/-! ### 7': the order-2 point u = 0 is mapped to zero by *every* scalar -/
+
+/-- RFC 7748 ladder on u = 0: the result is 0 whatever the scalar (proved by the loop
+invariant `z2 = z3 = 0`, see `Proofs/Curve.lean`) -/
+theorem ladder_zero (k : Nat) : Spec.X25519.ladder k 0 = 0 := Proofs.Curve.ladder_zero k
+
+/-- the same for the non-canonical encoding u = p of the same point -/
+theorem ladder_p (k : Nat) : Spec.X25519.ladder k Spec.X25519.p = 0 := Proofs.Curve.ladder_p k
+
+/-- the two 32-byte encodings that decode to 0 mod p -/
+def zeroPointEncodings : List Bytes := [zeros 32, 0xed :: (List.replicate 30 0xff ++ [0x7f])]
+
+theorem zeroPoint_decode : ∀ u ∈ zeroPointEncodings,
+    Spec.X25519.decodeUCoordinate u = 0 ∨ Spec.X25519.decodeUCoordinate u = Spec.X25519.p := by
+  decide
+
+/-- dryoc's scalar multiplication of the point u = 0 (either encoding, and with the ignored
+top bit set or not — `decodeUCoordinate` masks it) is all-zero for every secret key -/
+theorem scalarmult_zero_point (n u : Bytes)
+    (hu : Spec.X25519.decodeUCoordinate u = 0 ∨ Spec.X25519.decodeUCoordinate u = Spec.X25519.p) :
+    scalarmult specPrims n u = zeros 32 := by
+  have : Spec.X25519.ladder (le (clamp n)) (Spec.X25519.decodeUCoordinate u) = 0 := by
+    rcases hu with h | h <;> rw [h]
+    · exact ladder_zero _
+    · exact ladder_p _
+  simp only [scalarmult, specPrims, rawLadder, this]; decide
+
+/-- … hence a peer public key encoding u = 0 is refused by `crypto_kx` for every secret key
+(not only for the tested ones) -/
+theorem kx_refuses_zero_point (pk sk u : Bytes) (hu : u ∈ zeroPointEncodings) :
+    kxClient specPrims pk sk u = .err ∧ kxServer specPrims pk sk u = .err :=
+  ⟨kx_refuses_zero _ _ _ _ (scalarmult_zero_point sk u (zeroPoint_decode u hu)),
+   kx_refuses_zero_server _ _ _ _ (scalarmult_zero_point sk u (zeroPoint_decode u hu))⟩
+
+/-! ### non-vacuity -/
+
+/-- `clamp_range` on the all-ones scalar -/
+example : le (clamp (List.replicate 32 255)) = 2 ^ 255 - 8 := by decide
+
+/-- RFC 7748 §5.2 first test vector, through the model -/
+example :
+    scalarmult specPrims
+      [0xa5, 0x46, 0xe3, 0x6b, 0xf0, 0x52, 0x7c, 0x9d, 0x3b, 0x16, 0x15, 0x4b, 0x82, 0x46, 0x5e, 0xdd,
+       0x62, 0x14, 0x4c, 0x0a, 0xc1, 0xfc, 0x5a, 0x18, 0x50, 0x6a, 0x22, 0x44, 0xba, 0x44, 0x9a, 0xc4]
+      [0xe6, 0xdb, 0x68, 0x67, 0x58, 0x30, 0x30, 0xdb, 0x35, 0x94, 0xc1, 0xa4, 0x24, 0xb1, 0x5f, 0x7c,
+       0x72, 0x66, 0x24, 0xec, 0x26, 0xb3, 0x35, 0x3b, 0x10, 0xa9, 0x03, 0xa6, 0xd0, 0xab, 0x1c, 0x4c]
+    = [0xc3, 0xda, 0x55, 0x37, 0x9d, 0xe9, 0xc6, 0x90, 0x8e, 0x94, 0xea, 0x4d, 0xf2, 0x8d, 0x08, 0x4f,
+       0x32, 0xec, 0xcf, 0x03, 0x49, 0x1c, 0x71, 0xf7, 0x54, 0xb4, 0x07, 0x55, 0x77, 0xa2, 0x85, 0x52] := by
+  set_option maxRecDepth 100000 in decide
+
+/-- the hypotheses of `kx_mirror` are satisfiable with the spec instantiation: the DH
+results of the secret keys `zeros 32` and `8 :: zeros 31` agree and are non-zero -/
+example :
+    let csk := zeros 32
+    let ssk := 8 :: zeros 31
+    let cpk := scalarmultBase specPrims csk
+    let spk := scalarmultBase specPrims ssk
+    scalarmult specPrims csk spk = scalarmult specPrims ssk cpk ∧
+    scalarmult specPrims csk spk ≠ zeros 32 := by
+  set_option maxRecDepth 100000 in decide
 
 end DryocVerif.Properties.C05
